@@ -88,7 +88,9 @@ def make_array(rng, sim, dims, badpos=None, badmode=None):
             l = fresh_labels(rng, k, rng.randint(1, 3), sim)
         labs.append(l)
         kinds.append(k)
-    return {"dims": list(dims), "labels": labs, "kinds": kinds, "values": gen.values(rng, tuple(len(l) for l in labs), rng.choice('ffi'))}
+    return {"dims": list(dims), "labels": labs, "kinds": kinds, "values": gen.values(rng, tuple(len(l) for l in labs), rng.choice('ffi')),
+            # some of the arrays handed to the dataset have been used before (searched, reduced, relabelled in place)
+            "history": rng.random() < 0.25, "forder": len(dims) >= 2 and rng.random() < 0.15}
 
 
 def gen_history(rng, nsteps, forced_bad=None):
@@ -628,6 +630,44 @@ def check(case, ctx):
                 inserted = [x for x in inserted if x[0] is not arr_]
         if not observe_state(ctx, ds, mo, where):
             return ('diverged', op)
+    # what the variables compute is labelled with the dataset's current axes (a variable is a shallow copy of the array that was
+    # assigned: nothing bound to that array may survive in it)
+    if ds is not None:
+        for k_ in list(dict.keys(ds)):
+            v_ = dict.__getitem__(ds, k_)
+            if v_.ndim < 2 or not v_.size:
+                continue
+            try:
+                r_ = v_.sum(axis=0)
+            except Exception:
+                continue
+            ctx.outcomes['final-variable-reductions'] += 1
+            want_ = [list(mo.axes[q]) for q in v_.dims[1:]]
+            got_ = [ax.values.tolist() for ax in r_.axes]
+            if tuple(r_.dims) != tuple(v_.dims[1:]) or not all(model.labels_eq(g, w) for g, w in zip(got_, want_)):
+                ctx.v(ID, "variable-reduction-labels", "after history %s, ds[%r].sum(axis=0) has dims %r labels %s, the dataset's axes are %r %s" % (
+                    hist[-6:], k_, r_.dims, codec.short(got_, 120), tuple(v_.dims[1:]), codec.short(want_, 120)))
+                break
+    # a rejected assignment of a plain ndarray / list (default dimension names x0, x1, ... and labels 0..n-1): the dataset stays as it was
+    if case.get("join_option") is not None and len(steps) % 3 == 0 and ds is not None and not any(q in ('x0', 'x1', 'x2') for q in ds.dims) and 'zz9' not in dict.keys(ds):
+        ok_arr = da.DimArray(np.arange(3.) + 500, axes=[da.Axis(np.array([10, 20, 30]), 'x1')])
+        try:
+            ds['zz9'] = ok_arr
+            mo.axes['x1'] = [10, 20, 30]
+            mo.vars['zz9'] = model.MA(np.arange(3.) + 500, ['x1'], [[10, 20, 30]])
+        except Exception:
+            ok_arr = None
+        if ok_arr is not None:
+            for vform, val in (("ndarray (2, 3)", np.zeros((2, 3))), ("nested list (2, 3)", [[1, 2, 3], [4, 5, 6]]), ("ndarray (4, 3, 2)", np.zeros((4, 3, 2)))):
+                ctx.outcomes['rejected-plain-values'] += 1
+                def fnp(val=val):
+                    ds['plain9'] = val
+                _, exc = ctx.call("ds['plain9'] = %s while the dataset's x1 has labels [10, 20, 30]" % vform, fnp, operands=(ds,), mutates=(ds,))
+                if exc is None:
+                    ctx.v(ID, "bad-accepted:plain", "ds['plain9'] = %s was accepted although its default labels on 'x1' ([0, 1, 2]) disagree with the dataset's [10, 20, 30]" % vform)
+                    break
+                if not observe_state(ctx, ds, mo, "after the rejected ds['plain9'] = %s" % vform):
+                    break
     n = len(steps)
     out = [(case["start"], tuple(sorted(kinds_seen)), 'short' if n < 6 else 'mid' if n < 15 else 'long')]
     out += rej_classes
